@@ -1416,3 +1416,12 @@ Qed.
 Lemma source_facts3 :
   Gen.C02.creator_bound_deposit = true /\ Gen.C02.creator_bound_batch = true /\ Gen.C02.creator_bound_sale = true.
 Proof. exact src_creator. Qed.
+
+(** The handlers convert no claim amount partially: [applicable] does not depend on the size of the
+    amount (the model's handler outcome is the same for every amount of the math.Int range). *)
+Lemma source_facts4 : Gen.C02.handler_amount_partial_conversions = 0.
+Proof. reflexivity. Qed.
+
+Lemma applicable_any_amount s c amt :
+  c_kind c = 0 -> applicable s (mkClaim (c_nonce c) (c_h c) (c_height c) (c_compass c) 0 (c_rcv c) amt (c_tok c)) = applicable s c.
+Proof. intros K. unfold applicable. simpl. now rewrite K. Qed.
